@@ -13,25 +13,30 @@
    follows the repaired code, the witness stays below as a regression example and in the
    scripted workload harness/c08_witness_test.go.
 
-   Not carried here (see bin/props.d/C08.py): positions "under liquidation" are represented
-   ([b_liq], excluded from every sum exactly as the property says) but no modelled message sets
-   the flag: the hand-over to the auction module is not modelled. *)
+   The hand-over of a position to a liquidation auction (liquidationsV2 UpdateLockedBorrows, op
+   OHandOver; the liquidation DECISION is C09's subject and an environment input here) is part of
+   the histories: positions under liquidation are excluded from every sum exactly as the property
+   says.  Finding C08-F2: the hand-over deletes the lend record when its AmountIn is exhausted even
+   if it still has AvailableToBorrow or other open positions; the books identity is REFUTED inside
+   that class ([kf_C08_2], [c08_books_refuted_handover]) and proved outside it ([clean] histories;
+   every history without hand-overs is clean: [c08_clean_without_handover]).
+   Not modelled: what happens to a handed-over position afterwards (auction close, CreteNewBorrow). *)
 From Comdex Require Import Lib.Base Lib.DecArith Lib.DecFacts Model.Lend Model.LendEx.
 From Comdex Require Import Proofs.LendProofs Proofs.LendProofsInv Proofs.LendProofsSide Proofs.LendProofsSteps Proofs.LendProofsSteps2
-     Proofs.LendProofsHist Proofs.LendProofsLtv Proofs.LendProofsRules Proofs.LendProofsMain Proofs.LendProofsAvail.
+     Proofs.LendProofsLiq Proofs.LendProofsHist Proofs.LendProofsLtv Proofs.LendProofsRules Proofs.LendProofsMain Proofs.LendProofsAvail.
 
 (* ---------------------------------------------------------------------------------------------- *)
 (* (a) published total lent = sum over the lend positions of the pool-asset of (available to
    borrow + collateral pledged to their open borrows that are not handed to an auction), after
    every finite history from any state that satisfies the invariant *)
 Theorem Inv08_lend : forall cfg st0 ops k s,
-  Good cfg st0 ->
+  Good cfg st0 -> clean cfg st0 ops ->
   let st := run cfg st0 ops in
   pget (sstats st) k = Some s ->
   s_lend s = lend_sum (lends st) (borrows st) (nlends st) (nborrows st) k.
 Proof.
-  intros cfg st0 ops k s HG st Hs.
-  destruct (run_good cfg ops st0 HG) as ((_ & _ & _ & _ & HSI) & _). exact (proj1 (HSI k s Hs)).
+  intros cfg st0 ops k s HG Hc st Hs.
+  destruct (run_good cfg ops st0 HG Hc) as ((_ & _ & _ & _ & HSI) & _). exact (proj1 (HSI k s Hs)).
 Qed.
 Print Assumptions Inv08_lend.
 
@@ -39,7 +44,7 @@ Print Assumptions Inv08_lend.
    the pool-asset that are not under liquidation; the published id lists are exactly the ids of
    the positions of the pool-asset *)
 Theorem Inv08_borrow : forall cfg st0 ops k s,
-  Good cfg st0 ->
+  Good cfg st0 -> clean cfg st0 ops ->
   let st := run cfg st0 ops in
   pget (sstats st) k = Some s ->
   s_bor s = bor_sum cfg (borrows st) (nborrows st) false k /\
@@ -47,24 +52,50 @@ Theorem Inv08_borrow : forall cfg st0 ops k s,
   s_lids s = filter (l_in_key (lends st) k) (zseq (nlends st)) /\
   s_bids s = filter (b_in_key cfg (borrows st) k) (zseq (nborrows st)).
 Proof.
-  intros cfg st0 ops k s HG st Hs.
-  destruct (run_good cfg ops st0 HG) as ((_ & _ & _ & _ & HSI) & _). exact (proj2 (HSI k s Hs)).
+  intros cfg st0 ops k s HG Hc st Hs.
+  destruct (run_good cfg ops st0 HG Hc) as ((_ & _ & _ & _ & HSI) & _). exact (proj2 (HSI k s Hs)).
 Qed.
 Print Assumptions Inv08_borrow.
 
 (* both, as the executable predicates the runner evaluates on the implementation's books, for
    every history that starts without positions and with zero totals *)
 Theorem c08_history : forall cfg st0 ops,
-  empty_books st0 ->
+  empty_books st0 -> clean cfg st0 ops ->
   holds_C08_lend (run cfg st0 ops) = true /\ holds_C08_borrow cfg (run cfg st0 ops) = true.
 Proof.
-  intros cfg st0 ops H0. pose proof (Good_Inv _ _ (run_good cfg ops st0 (init_good cfg st0 H0))) as HI.
+  intros cfg st0 ops H0 Hc. pose proof (Good_Inv _ _ (run_good cfg ops st0 (init_good cfg st0 H0) Hc)) as HI.
   split; [exact (inv_holds_lend cfg _ HI)|exact (inv_holds_borrow cfg _ HI)].
 Qed.
 Print Assumptions c08_history.
 
+(* a history is clean when it contains no hand-over at all (the eleven lend messages and oracle moves) *)
+Theorem c08_clean_without_handover : forall cfg st0 ops,
+  forallb (fun o => negb (is_handover o)) ops = true -> clean cfg st0 ops.
+Proof. intros cfg st0 ops H. exact (clean_no_handover cfg ops st0 H). Qed.
+Print Assumptions c08_clean_without_handover.
+
+(* finding C08-F2: inside class 2 the identity of total lent is false.  Witness (replayed on the real
+   keepers by harness/c08_liq_test.go with the same numbers): a position that earned 313 940 coins of
+   rewards pledges its whole AmountIn and is handed over; the record is deleted, TotalLend keeps the
+   313 940 coins that no lend position holds any more *)
+Theorem c08_books_refuted_handover :
+  exists cfg st0 ops o, empty_books st0 /\ clean cfg st0 ops /\ kf_C08_2 (run cfg st0 ops) o = true /\
+    holds_C08_lend (run cfg st0 (ops ++ [o])) = false /\
+    option_map s_lend (pget (sstats (run cfg st0 (ops ++ [o]))) (1, 2)) = Some 2000313940 /\
+    lend_sum (lends (run cfg st0 (ops ++ [o]))) (borrows (run cfg st0 (ops ++ [o]))) 4 2 (1, 2) = 2000000000.
+Proof.
+  exists ex_cfg, ex_st0, ex_liq_prefix, ex_handover.
+  split; [apply empty_booksb_ok; vm_compute; reflexivity|].
+  split; [apply cleanb_ok; vm_compute; reflexivity|]. vm_compute. repeat split.
+Qed.
+Print Assumptions c08_books_refuted_handover.
+
 Example c08_history_nonvacuous :
-  empty_booksb ex_st0 = true /\
+  empty_booksb ex_st0 = true /\ cleanb ex_cfg ex_st0 ex_history = true /\
+  (* a clean history WITH a hand-over: the position is flagged, the books identities hold *)
+  cleanb ex_cfg ex_st0 ex_liq_clean_history = true /\
+  map (fun jb => b_liq (snd jb)) (borrows (run ex_cfg ex_st0 ex_liq_clean_history)) = [true] /\
+  holds_C08_lend (run ex_cfg ex_st0 ex_liq_clean_history) = true /\
   let st := run ex_cfg ex_st0 ex_history in
   map fst (lends st) = [1; 2; 3] /\ map fst (borrows st) = [1] /\
   option_map s_lend (pget (sstats st) (1, 2)) = Some 1000000000 /\
@@ -76,13 +107,13 @@ Proof. vm_compute. repeat split. Qed.
 (* the "amount still available to borrow" of every lend position is never negative: in every
    reachable state (so a position cannot pledge, or pay out, more than it holds) *)
 Theorem c08_available_nonneg : forall cfg st0 ops,
-  empty_books st0 ->
+  empty_books st0 -> clean cfg st0 ops ->
   let st := run cfg st0 ops in
   (forall i l, zget (lends st) i = Some l -> 0 <= l_avail l) /\ holds_C08_avail st = true.
 Proof.
-  intros cfg st0 ops H0 st.
+  intros cfg st0 ops H0 Hc st.
   assert (HA : Avail (lends st)).
-  { apply run_avail; [apply init_good; exact H0|]. destruct H0 as (EL & _). rewrite EL. intros i l E. discriminate E. }
+  { apply run_avail; [apply init_good; exact H0|exact Hc|]. destruct H0 as (EL & _). rewrite EL. intros i l E. discriminate E. }
   split; [exact HA|]. unfold holds_C08_avail. apply forallb_forall. intros i _.
   destruct (zget (lends st) i) as [l|] eqn:E; [|reflexivity]. apply Z.leb_le. exact (HA i l E).
 Qed.
@@ -98,13 +129,13 @@ Proof. vm_compute. repeat split. Qed.
 (* the collateral of every open position is cTokens of the asset of the lend position it hangs on
    (finding C08-F1, repaired): in every reachable state *)
 Theorem c08_collateral_asset : forall cfg st0 ops j b,
-  Good cfg st0 ->
+  Good cfg st0 -> clean cfg st0 ops ->
   let st := run cfg st0 ops in
   zget (borrows st) j = Some b -> b_liq b = false ->
   mismatched_lend cfg st j = false /\ 0 < b_in b /\
   exists l pr, zget (lends st) (b_lend b) = Some l /\ zget (c_pairs cfg) (b_pair b) = Some pr /\ l_asset l = pr_in pr.
 Proof.
-  intros cfg st0 ops j b HG st Hb Hq. destruct (run_good cfg ops st0 HG) as (_ & HS).
+  intros cfg st0 ops j b HG Hc st Hb Hq. destruct (run_good cfg ops st0 HG Hc) as (_ & HS).
   split; [exact (side_no_mismatch cfg _ j HS)|exact (HS j b Hb Hq)].
 Qed.
 Print Assumptions c08_collateral_asset.
@@ -130,10 +161,10 @@ Print Assumptions c08_ltv_rule.
 
 (* the same after every finite history with unsigned oracle prices *)
 Theorem c08_ltv_history : forall cfg st0 ops o st',
-  cfg_wf cfg -> empty_books st0 -> PricesOk (prices st0) -> Forall op_sane ops ->
+  cfg_wf cfg -> empty_books st0 -> clean cfg st0 ops -> PricesOk (prices st0) -> Forall op_sane ops ->
   step cfg (run cfg st0 ops) o = Ok st' -> ltv_rule cfg (run cfg st0 ops) o st'.
 Proof.
-  intros cfg st0 ops o st' Hwf H0 HP Hs H. destruct (reach_good cfg st0 ops H0 HP Hs) as (HG & HP').
+  intros cfg st0 ops o st' Hwf H0 Hc HP Hs H. destruct (reach_good cfg st0 ops H0 Hc HP Hs) as (HG & HP').
   exact (step_ltv cfg _ o st' Hwf HG HP' H).
 Qed.
 Print Assumptions c08_ltv_history.
